@@ -251,7 +251,7 @@ pub struct Profile {
     pub len: usize,
     pub w_open: u64, pub w_close: u64, pub w_deposit: u64, pub w_withdraw: u64, pub w_liq: u64,
     pub w_funding: u64, pub w_block: u64, pub w_oracle: u64, pub w_cfg: u64, pub w_malformed: u64,
-    pub w_steer_liq: u64, pub w_pause: u64, pub w_caps: u64,
+    pub w_steer_liq: u64, pub w_pause: u64, pub w_caps: u64, pub w_pcf: u64, pub w_c16: u64,
 }
 
 impl Profile {
@@ -263,13 +263,15 @@ impl Profile {
             "caps" => { p.w_caps = 14; p.w_open = 45; }
             "pause" => { p.w_pause = 8; p.w_malformed = 8; }
             "fluct" => { p.w_close = 20; p.w_block = 8; }
+            "pcf" => { p.w_close = 12; p.w_block = 8; p.w_funding = 8; p.w_oracle = 6; p.w_open = 30; p.w_steer_liq = 3; p.w_pcf = 14; }
+            "c16" => { p.w_c16 = 16; p.w_open = 30; p.w_steer_liq = 4; }
             _ => {}
         }
         p
     }
     pub fn general(len: usize) -> Profile {
         Profile { len, w_open: 36, w_close: 10, w_deposit: 4, w_withdraw: 5, w_liq: 4, w_funding: 5, w_block: 14,
-                  w_oracle: 4, w_cfg: 2, w_malformed: 5, w_steer_liq: 7, w_pause: 1, w_caps: 2 }
+                  w_oracle: 4, w_cfg: 2, w_malformed: 5, w_steer_liq: 7, w_pause: 1, w_caps: 2, w_pcf: 0, w_c16: 0 }
     }
 }
 
@@ -333,7 +335,10 @@ pub fn steer_liquidatable(tr: &mut Tracer, w: &mut World, rng: &mut Rng, v: u32,
         let spot: Option<Uint128> = w.q(&w.addr(v), &mv::QueryMsg::SpotPrice {});
         if let Some(s) = spot {
             let bi = w.app.block_info();
-            let p = match rng.below(6) { 0 => s.u128() * 11 / 10, 1 => s.u128() * 9 / 10, 2 => s.u128() * 10 / 11 + 1, _ => s.u128() };
+            // oracle on both sides of the 10% spread limit, measured against the oracle (spot = oracle x 1.1 <=> oracle = spot / 1.1)
+            let sp = s.u128();
+            let p = match rng.below(12) { 0 => sp * 11 / 10, 1 => sp * 9 / 10, 2 => sp * 10 / 11 + 1, 3 => sp * 10 / 11, 4 => sp * 1000 / 1105, 5 => sp * 1000 / 1095,
+                                          6 => sp * 1000 / 1050, 7 => sp * 10 / 9, 8 => sp * 1000 / 905, _ => sp };
             tr.step(w, &Op::Feed { sender: ID_OWNER, m: PMsg::Append { price: p, t: bi.time.seconds() } });
         }
     }
@@ -345,7 +350,7 @@ pub fn steer_liquidatable(tr: &mut Tracer, w: &mut World, rng: &mut Rng, v: u32,
 pub fn history(tr: &mut Tracer, w: &mut World, rng: &mut Rng, p: &Profile) {
     let d = unit(w.d.decimals);
     let total = p.w_open + p.w_close + p.w_deposit + p.w_withdraw + p.w_liq + p.w_funding + p.w_block + p.w_oracle
-        + p.w_cfg + p.w_malformed + p.w_steer_liq + p.w_pause + p.w_caps;
+        + p.w_cfg + p.w_malformed + p.w_steer_liq + p.w_pause + p.w_caps + p.w_pcf + p.w_c16;
     for _ in 0..p.len {
         let nv = w.vamms.len() as u64;
         let v = ID_VAMM0 + rng.below(nv) as u32;
@@ -468,6 +473,70 @@ pub fn history(tr: &mut Tracer, w: &mut World, rng: &mut Rng, p: &Profile) {
                 tr.step(w, &Op::Eng { sender: STRANGER, funds: 0, m: EMsg::PayFunding { vamm: v } });
                 tr.step(w, &Op::Eng { sender: ID_OWNER, funds: 0, m: EMsg::SetPause(false) });
             }
+        } else if take(p.w_pcf) {
+            // funding settles on an open position, then its owner closes (partially, when the band is tight)
+            let ps = with_position(w);
+            if ps.is_empty() { continue; }
+            let (v, t) = *rng.pick(&ps);
+            let st = vamm_state(w, v);
+            let now = w.app.block_info().time.seconds();
+            if st.next_funding_time > now { tr.step(w, &Op::Block { dt: st.next_funding_time - now + rng.below(3), dh: 1 }); }
+            if rng.chance(1, 2) {
+                let spot: Option<Uint128> = w.q(&w.addr(v), &mv::QueryMsg::SpotPrice {});
+                if let Some(sp) = spot { let nowt = w.app.block_info().time.seconds();
+                    let pz = match rng.below(3) { 0 => sp.u128() * 9 / 10, 1 => sp.u128() * 11 / 10, _ => sp.u128() * 2 };
+                    tr.step(w, &Op::Feed { sender: ID_OWNER, m: PMsg::Append { price: pz, t: nowt } }); }
+            }
+            tr.step(w, &Op::Eng { sender: STRANGER, funds: 0, m: EMsg::PayFunding { vamm: v } });
+            tr.step(w, &Op::Block { dt: 1 + rng.below(20), dh: 1 });
+            // tighten the band so that the close is split (the positions were opened with the band off)
+            let tight = *rng.pick(&[d / 1000, d / 500, d / 100]);
+            tr.step(w, &Op::Vamm { sender: ID_OWNER, v, m: VMsg::UpdCfg { hold: None, oi: None, toll: None, spread: None, fluct: Some(tight), engine: None, ifund: None, feed: None, twap: None } });
+            tr.step(w, &Op::Eng { sender: t, funds: 0, m: EMsg::Close { vamm: v, limit: 0 } });
+            if rng.chance(1, 2) {
+                tr.step(w, &Op::Block { dt: 1 + rng.below(20), dh: 1 });
+                match rng.below(3) {
+                    0 => { tr.step(w, &Op::Eng { sender: t, funds: 0, m: EMsg::Close { vamm: v, limit: 0 } }); }
+                    1 => { tr.step(w, &Op::Eng { sender: t, funds: 0, m: EMsg::Withdraw { vamm: v, amt: d / 100 + 1 } }); }
+                    _ => { let op = mk_open(w, t, v, if rng.chance(1, 2) { Side::Buy } else { Side::Sell }, d * (1 + rng.below(5) as u128), d, 0); tr.step(w, &op); }
+                }
+            }
+            tr.step(w, &Op::Vamm { sender: ID_OWNER, v, m: VMsg::UpdCfg { hold: None, oi: None, toll: None, spread: None, fluct: Some(0), engine: None, ifund: None, feed: None, twap: None } });
+        } else if take(p.w_c16) {
+            // within ONE block: a trader touches (or does not touch) a position, a liquidation happens on the
+            // same vAMM, then the trader / the liquidator / a bystander act again
+            let ps = with_position(w);
+            if ps.len() < 2 { continue; }
+            let (v, victim) = *rng.pick(&ps);
+            let others: Vec<u32> = ps.iter().filter(|(vv, tt)| *vv == v && *tt != victim).map(|(_, tt)| *tt).collect();
+            if others.is_empty() { continue; }
+            let actor = *rng.pick(&others);
+            tr.step(w, &Op::Block { dt: 10 + rng.below(100), dh: 1 });
+            // before the liquidation: the actor reduces / increases / does nothing in this block
+            match rng.below(4) {
+                0 => { if let Some(p0) = w.position(v, actor) {
+                          let side = if p0.direction == mv::Direction::AddToAmm { Side::Sell } else { Side::Buy };
+                          let amt = (p0.notional.u128() / 10).max(1);
+                          let op = mk_open(w, actor, v, side, amt, d, 0); tr.step(w, &op); } }
+                1 => { if let Some(p0) = w.position(v, actor) {
+                          let side = if p0.direction == mv::Direction::AddToAmm { Side::Buy } else { Side::Sell };
+                          let op = mk_open(w, actor, v, side, d, d, 0); tr.step(w, &op); } }
+                2 => { let amt = d / 3 + 1; tr.step(w, &Op::Eng { sender: actor, funds: if w.d.native { amt } else { 0 }, m: EMsg::Deposit { vamm: v, amt } }); }
+                _ => {}
+            }
+            steer_liquidatable(tr, w, rng, v, victim);
+            // after it, same block
+            for who in [actor, victim, LIQUIDATOR] {
+                match rng.below(3) {
+                    0 => { tr.step(w, &Op::Eng { sender: who, funds: 0, m: EMsg::Close { vamm: v, limit: 0 } }); }
+                    1 => { let op = mk_open(w, who, v, if rng.chance(1, 2) { Side::Buy } else { Side::Sell }, d, d, 0); tr.step(w, &op); }
+                    _ => {}
+                }
+            }
+            if rng.chance(1, 2) {
+                tr.step(w, &Op::Block { dt: 5, dh: 1 });
+                tr.step(w, &Op::Eng { sender: actor, funds: 0, m: EMsg::Close { vamm: v, limit: 0 } });
+            }
         } else if take(p.w_malformed) {
             match rng.below(10) {
                 0 => { tr.step(w, &Op::Eng { sender: t, funds: 0, m: EMsg::Open { vamm: v, side: Side::Buy, margin: 0, lev: d, limit: 0 } }); }
@@ -492,15 +561,18 @@ pub fn run(out: &mut dyn Write, seed: u64, thorough: bool, n_hist: usize, native
     let mut tr = Tracer { out, n: 0, observe_every_op: true };
     for h in 0..n_hist {
         let mut d = random_deploy(&mut rng, native, real_feed);
-        if profile == "fluct" {
+        if profile == "fluct" || profile == "pcf" {
             let u = unit(d.decimals);
             for v in d.vamms.iter_mut() { v.fluct = *rng.pick(&[u / 100, u / 50, u / 20, u / 10, u / 5]); }
+        }
+        if profile == "pcf" {
+            for v in d.vamms.iter_mut() { v.fluct = 0; v.fperiod = *rng.pick(&[1000u64, 1800, 3600]); }
         }
         let mut w = World::new(&d, &accounts());
         tr.begin(&w, &format!("engine seed={} h={}", seed, h));
         setup(&mut tr, &mut w, &mut rng);
         let len = if thorough { 40 + rng.below(60) as usize } else { 25 + rng.below(20) as usize };
-        if profile == "fluct" {
+        if profile == "fluct" || profile == "pcf" {
             let u = unit(w.d.decimals);
             let plr = *rng.pick(&[u / 4, u / 2, u / 10, u * 9 / 10, u / 3]);
             tr.step(&mut w, &Op::Eng { sender: ID_OWNER, funds: 0, m: EMsg::UpdCfg { owner: None, ifund: None, fpool: None, init: None, maint: None, plr: Some(plr), liqfee: None } });
